@@ -260,7 +260,7 @@ def desugar_combinators(m, prog=None):
     return m
 
 
-def inline_mir(prog, key, stop, maxdepth=4, _stack=(), max_blocks=6000):
+def inline_mir(prog, key, stop, maxdepth=4, _stack=(), max_blocks=6000, max_callee_blocks=None):
     """Returns (mir dict, promoted list, inlined callee keys)."""
     fn = prog.fns[key]
     m = copy.deepcopy(fn["mir"])
@@ -290,7 +290,9 @@ def inline_mir(prog, key, stop, maxdepth=4, _stack=(), max_blocks=6000):
             continue
         if len(m["blocks"]) + len(gf["mir"]["blocks"]) > max_blocks:
             continue
-        gm, gprom, ginl = inline_mir(prog, g, stop, maxdepth, _stack + (key,), max_blocks)
+        if max_callee_blocks is not None and len(gf["mir"]["blocks"]) > max_callee_blocks and not c.get("synth"):
+            continue
+        gm, gprom, ginl = inline_mir(prog, g, stop, maxdepth, _stack + (key,), max_blocks, max_callee_blocks)
         if len(t["args"]) != gm["arg_count"]:
             continue
         off_l = len(m["locals"])
@@ -321,10 +323,10 @@ def inline_mir(prog, key, stop, maxdepth=4, _stack=(), max_blocks=6000):
     return m, prom, inlined
 
 
-def inlined_body(prog, key, stop=lambda k: False, maxdepth=4):
+def inlined_body(prog, key, stop=lambda k: False, maxdepth=4, max_callee_blocks=None):
     """Body of `key` with its local, non-stopped callees inlined.  The synthetic function keeps key, name and location."""
     ck = ("inl", key, id(stop))
-    m, prom, inl = inline_mir(prog, key, stop, maxdepth)
+    m, prom, inl = inline_mir(prog, key, stop, maxdepth, max_callee_blocks=max_callee_blocks)
     fn = dict(prog.fns[key])
     fn["mir"] = m
     fn["promoted"] = prom
